@@ -20,12 +20,27 @@ Tie obligations for the READER GLUE of src/read.rs (translator tier T6, helper t
                          `names_map.get(name)` returns
   openArchive_eq_alloc   `openArchive = Prod.fst <$> openArchiveAlloc` (the model function every property uses is
                          the first component of the tied one)
+  tie_find_content       fcRes <$> Gen.find_content data = (fun ds => ([("data.data_start", ds)], data.compressed_size))
+                           <$> findContent (dataOf data): seek to the local header, signature check, skip 22, the two
+                         lengths of the LOCAL header, the checked sum `header_start + 30 + n + m` (its overflow panic
+                         included), the seek to the data; the value stored into `data.data_start`; the `Take` limit
+  tie_make_crypto_reader Gen.make_crypto_reader ext m crc t udd reader pw info size
+                           = runChoice ext reader size (cryptoChoice (methodOf m) crc (toModel t) udd pw (aesInfoOf info))
+                         for EVERY behaviour `ext` of the external layer constructors: the decision (unsupported
+                         method / method 99 -> error before any I/O; AES info without password -> InvalidPassword;
+                         password + AES info -> AES layer with that mode, size, vendor version; password alone ->
+                         ZipCrypto with the validator chosen by `using_data_descriptor`: DOS time or CRC; else
+                         plaintext) is the model's `cryptoChoice`
+  byIndexRead_eq_choice  `byIndexRead = byIndexReadC`: the model's `by_index*` IS `cryptoChoice` followed by the layers
 
 Assumptions that enter the trusted base with this file (`Basic/RsGlue.lean`): `Vec::with_capacity(n)` /
 `HashMap::with_capacity(n)` request `n` elements and `push` / `insert` never change what was REQUESTED (growth by
 `push` is bounded by the number of pushed elements, which the loop theorems of C05 bound); `HashMap<String, usize>`
 is a finite map: `insert` of an existing key replaces its value, `get` returns the value stored last; `Arc::new`
-is the identity on values; `for _ in 0..n` runs `n` times.
+is the identity on values; `for _ in 0..n` runs `n` times.  `find_content`: an `AtomicU64::store` through a shared
+reference is reported as part of the function's value (`Rs.Stores`) and dropped when the function fails.
+`make_crypto_reader`: `ZipCryptoReader::new(..).validate(..)` / `AesReader::new(..).validate(..)` are uninterpreted
+`M`-computations with a Boolean verdict (`Rs.ReadExt`); a validated layer is the record of its constructor's arguments.
 -/
 set_option linter.unusedSimpArgs false
 set_option linter.unusedSectionVars false
